@@ -1,7 +1,7 @@
 (* C10 constraint impulses: G qd+ = v+, H (qd+ - qd-) + G^T Lambda = 0 (written H qd+ + G^T Lambda = H qd-),
    uniqueness (the three methods agree), and a feasible pre-impact velocity is returned unchanged. *)
 From Coq Require Import List.
-From RV Require Import Scalar Laws ListArr LinDef LinThm ModelDef KinDef DynDef ConsDef ConsThm C14Thm DimThm.
+From RV Require Import Scalar Laws ListArr LinDef LinThm ModelDef KinDef DynDef ConsDef ConsThm C14Thm DimThm KinThm JointDef EnergyThm SymThm.
 Import ListNotations.
 Section P.
   Context {T : Type} (O : Ops T) {FL : FieldLaws O}.
@@ -37,7 +37,24 @@ Section P.
     vadd O (mvmul O Hm qdp) (mTvmul O G n Lam) = mvmul O Hm qdm /\ mvmul O G qdp = vplus.
   Proof. intros W. exact (impulses_equations_sized O oeqb_spec M w q qdm cs vplus w' qdp Lam (wf_qdot M W)). Qed.
 End P.
+Section P2.
+  Context {T : Type} (O : Ops T) {FL : FieldLaws O} {TL : TrigLaws O}.
+  Hypothesis oeqb_spec : forall x y : T, oeqb O x y = true <-> x = y.
+  (* With v+ = 0:  qd-^T H qd-  -  qd+^T H qd+  =  (qd- - qd+)^T H (qd- - qd+)  (Carnot): twice the kinetic energy lost
+     is the quadratic form of the velocity jump, so the energy cannot increase for a positive semi-definite H. *)
+  Theorem C10_energy_loss_is_energy_of_velocity_jump (M : @Model T) (w0 : @WS T) q qdm cs w' qdp Lam : WF M ->
+    (forall i j, 0 < i < nbodies M -> 0 < j < nbodies M -> i <> j ->
+       is_custom (jkind (getJ M i)) = true -> is_custom (jkind (getJ M j)) = true -> jcust (getJ M i) <> jcust (getJ M j)) ->
+    Good O M w0 -> length qdm = dof_count M ->
+    constraint_impulses O M w0 q qdm cs (vzeros (o0 O) (length cs)) = (w', Some (qdp, Lam)) ->
+    let n := dof_count M in
+    let Hm := snd (crba O M (ukc_q O M w0 q) q (zerosM O n n) false) in
+    osub O (odot O qdm (mvmul O Hm qdm)) (odot O qdp (mvmul O Hm qdp)) =
+    odot O (vsub O qdm qdp) (mvmul O Hm (vsub O qdm qdp)).
+  Proof. intros W C. exact (impulse_energy_loss O oeqb_spec M W C w0 q qdm cs w' qdp Lam). Qed.
+End P2.
 Print Assumptions C10_impulse_equations.
 Print Assumptions C10_feasible_velocity_unchanged.
 Print Assumptions C10_methods_agree.
 Print Assumptions C10_impulse_equations_constructed_models.
+Print Assumptions C10_energy_loss_is_energy_of_velocity_jump.
